@@ -23,10 +23,13 @@
 //      (not OB) and "Data\" (terrain) to relative paths);
 //      applied where that pipeline itself yields a canonical fixed point;
 //  (4) no exception escapes; a single case running > 60 s is reported as a hang.
-// A failing case is classified by root cause (signature) from the failing clause and the
-// symptom visible in the output, so that the runner can get past one cause to the next;
-// whatever is not explained gets the generic C19:predicate:<clause> / C19:idempotence /
-// C19:diff / C19:clean-input-changed signature.
+// A failing case is given a root-cause signature (so that the runner, which suppresses a
+// signature once reported, can get past one cause to the next) only when the library's output
+// is exactly what the documented pipeline plus its two known quirks would produce and the
+// failing clause matches that cause: C19:double-backslash, C19:blank-exposed,
+// C19:terrain-not-idempotent, C19:effect-shader-not-cleaned, C19:newline-blocks-strip,
+// C19:ob-nested-textures. Everything else keeps the generic C19:predicate:<clause> /
+// C19:idempotence / C19:clean-input-changed / C19:diff / C19:exception signature.
 #include "harness.hpp"
 #include "nifx.hpp"
 
@@ -902,8 +905,21 @@ void deterministic(Run& run, const std::function<void(const std::vector<uint8_t>
 	static const std::vector<uint8_t> sub = {0, 6, 5, 10};
 	for (unsigned len = maxLen + 1; len <= 7; len++)
 		forAllSequences(len, sub, [&](const std::vector<uint8_t>& seq, uint64_t ord) {
-			for (unsigned k = 0; k < 3; k++)
-				feed(tapeFor(static_cast<int>((k + ord) % 3), static_cast<int>(ord % 3), false, E_EXPLICIT, false, K_TEXSET, 0, seq));
+			// Inputs on which the documented pipeline itself does not end in a canonical fixed point
+			// (only possible without a prefix, i.e. OB) are rare here: feed them once per shard
+			// (consecutive indices = every shard), so that every shard meets them in this
+			// shortest-first order and the merged report carries a shortest witness.
+			std::string path;
+			for (uint8_t tk : seq)
+				path += kTokens[tk];
+			std::string e = spec(path, true, false);
+			const bool rare = violatedClause(e, true, false) != nullptr || spec(e, true, false) != e;
+			for (unsigned k = 0; k < 3; k++) {
+				int vclass = static_cast<int>((k + ord) % 3);
+				int copies = (vclass == V_OB && rare) ? (run.args.nshards > 0 ? run.args.nshards : 1) : 1;
+				for (int i = 0; i < copies; i++)
+					feed(tapeFor(vclass, static_cast<int>(ord % 3), false, E_EXPLICIT, false, K_TEXSET, 0, seq));
+			}
 		});
 }
 
